@@ -500,6 +500,14 @@ def planted_cases():
                                           [["v", str(k)] for k in range(25)]))
                 sn["properties"].append(P("tup", sdt, svals))
                 cases.append({"dest": enc(d), "src": enc(s), "strict": strict, "planted": ["tuple-properties", tag, depth, "prop"]})
+        # n-tuples with a two-digit arity, on both sides
+        for depth in (0, 1):
+            d, s = template(), template()
+            dn, sn = (d, s) if depth == 0 else (d["sections"][0], s["sections"][0])
+            dn["properties"].append(P("wide", "12-tuple", [[str(k) for k in range(12)]], unit="mV"))
+            sn["properties"].append(P("wide", "12-tuple", [[str(k) for k in range(12)], [str(k * 2) for k in range(12)]],
+                                      definition="wide def"))
+            cases.append({"dest": enc(d), "src": enc(s), "strict": strict, "planted": ["tuple-properties", "12-tuple<-12-tuple", depth, "prop"]})
         # numbers (zeros in particular) merged into a text Property are converted to their text
         for sdt, svals, tag in (("int", [0, 5], "string<-int"), ("float", [0.0, 2.5], "string<-float"), ("int", [0], "string<-zero-only")):
             for depth in (0, 1):
